@@ -507,3 +507,5 @@ func tokObs(s *schema.Schema) string {
 	}
 	return strings.Join(w, " ")
 }
+
+func typeOf(t schema.Type) reflect.Type { return reflect.TypeOf(t) }
